@@ -57,7 +57,7 @@ pub fn chaos_case(ctx: &Ctx, case: u64, acc: &mut Acc, opts: &ChaosOpts) -> Resu
         .map(|a| {
             let pol = gen::renew_policy(&mut r);
             let node = Node::new(Id::with(a as u16, 0, pol), cfg.clone(), codec, hcfg, r.next());
-            Peer { node, watch: Watch::new(codec, opts.arm, false), timers: vec![] }
+            Peer { node, watch: Watch::new(codec, opts.arm, false, hcfg), timers: vec![] }
         })
         .collect();
     let mut net: Vec<(Id, Vec<u8>, usize)> = vec![]; // (dst, bytes, sender's mps)
@@ -173,6 +173,11 @@ pub fn chaos_case(ctx: &Ctx, case: u64, acc: &mut Acc, opts: &ChaosOpts) -> Resu
     acc.tally(&format!("chaos_codec/{codec:?}"), 1);
     if peers.iter().any(|p| p.watch.shadow_broken) {
         acc.tally("cases_with_unarmed_monitor_disagreement", 1);
+        for p in &peers {
+            if let Some(r) = p.watch.unarmed.first() {
+                acc.tally(&format!("unarmed/{r}"), 1);
+            }
+        }
     }
     let _ = Renew::None;
     Ok(st)
